@@ -1064,6 +1064,69 @@ fn open_ends_leg(ctx: &mut Ctx) {
     }
 }
 
+
+// ---------------------------------------------------------------------------------------
+// The extension marker of a SIZE constraint written behind a parenthesised element,
+// `SIZE ((1..2), ...)`: the same constraint as `SIZE (1..2, ...)`.
+
+fn paren_size_text() -> String {
+    let mut s = String::from("Paren-Mod DEFINITIONS AUTOMATIC TAGS ::= BEGIN\n");
+    let hosts = ["OCTET STRING", "BIT STRING", "IA5String", "UTF8String", "BMPString"];
+    let ranges = ["1..2", "0..MAX", "5", "MIN..300", "0..70000"];
+    let mut k = 0;
+    for h in hosts {
+        for r in ranges {
+            s.push_str(&format!("Paren{k} ::= {h} (SIZE (({r}), ...))\nPlain{k} ::= {h} (SIZE ({r}, ...))\n"));
+            s.push_str(&format!("Paren{k}-Comp ::= SEQUENCE {{ f {h} (SIZE (({r}), ...)) }}\nPlain{k}-Comp ::= SEQUENCE {{ f {h} (SIZE ({r}, ...)) }}\n"));
+            k += 1;
+        }
+    }
+    for r in ranges {
+        s.push_str(&format!("Paren{k} ::= SEQUENCE (SIZE (({r}), ...)) OF BOOLEAN\nPlain{k} ::= SEQUENCE (SIZE ({r}, ...)) OF BOOLEAN\n"));
+        s.push_str(&format!("Paren{k}-Comp ::= SEQUENCE {{ f SET (SIZE (({r}), ...)) OF BOOLEAN }}\nPlain{k}-Comp ::= SEQUENCE {{ f SET (SIZE ({r}, ...)) OF BOOLEAN }}\n"));
+        k += 1;
+    }
+    s.push_str("END\n");
+    s
+}
+
+fn paren_size_eval(text: &str) -> Result<(usize, Option<String>), String> {
+    let out = match comp::compile_rasn1(text, &Cfg::default()) {
+        Outcome::Ok(o) if o.warnings.is_empty() => o,
+        Outcome::Ok(o) => return Err(format!("warnings: {}", o.warnings[0])),
+        Outcome::Err(e) => return Err(e),
+        Outcome::Panic(p) => return Err(format!("panic: {p}")),
+    };
+    let mods = crate::proj::project(&out.generated)?;
+    let m = mods.first().ok_or("no module")?;
+    let mut n = 0;
+    for it in &m.items {
+        let crate::proj::RItem::Struct(o) = it else { continue };
+        let Some(rest) = o.name.strip_prefix("Paren") else { continue };
+        let Some(c) = m.find_struct(&format!("Plain{rest}")) else { continue };
+        n += 1;
+        let sig = |s: &crate::proj::RStruct| format!("{:?} [{}]", s.attrs.size, s.fields.iter().map(|f| format!("{:?}", f.attrs.size)).collect::<Vec<_>>().join(", "));
+        if sig(o) != sig(c) {
+            return Ok((n, Some(format!("{}: size {} - with the marker inside the parentheses ({}): {}", o.name, sig(o), c.name, sig(c)))));
+        }
+    }
+    Ok((n, None))
+}
+
+fn paren_size_leg(ctx: &mut Ctx) {
+    let text = paren_size_text();
+    match paren_size_eval(&text) {
+        Err(e) => ctx.class(&format!("paren-size:skipped ({})", e.chars().take(40).collect::<String>())),
+        Ok((n, res)) => {
+            ctx.case("paren-size", true);
+            ctx.class_n("leg:SIZE marker behind a parenthesised element (pairs)", n as u64);
+            if let Some(d) = res {
+                ctx.fail(Failure { finding: None, what: format!("the extension marker behind a parenthesised SIZE element is lost: {d}"), replay: json!({"kind": "c04-paren-size", "sources": [{"name": "paren.asn", "text": text}], "observed": d}) });
+            }
+        }
+    }
+}
+
 pub fn run(tier: Tier, seed: u64, replay: Option<String>) -> i32 {
     let mut ctx = Ctx::new("C04", tier, seed);
     ctx.rule = "exhaustive: element sets with 1..2 operands (quick; thorough: 1..3) from single values and ranges over {MIN,-1,0,1,5,300,MAX} \
@@ -1079,6 +1142,19 @@ pub fn run(tier: Tier, seed: u64, replay: Option<String>) -> i32 {
     ];
     if let Some(path) = replay {
         let v: Value = serde_json::from_str(&std::fs::read_to_string(&path).expect("replay")).expect("json");
+        if v["kind"] == "c04-paren-size" {
+            let text = v["sources"][0]["text"].as_str().unwrap_or_default().to_string();
+            match paren_size_eval(&text) {
+                Err(e) => ctx.inconclusive.push(e),
+                Ok((_, res)) => {
+                    ctx.case(&text, true);
+                    if let Some(d) = res {
+                        ctx.fail(Failure { finding: None, what: format!("the extension marker behind a parenthesised SIZE element is lost: {d}"), replay: v.clone() });
+                    }
+                }
+            }
+            return ctx.finish();
+        }
         if v["kind"] == "c04-open-ends" {
             let text = v["sources"][0]["text"].as_str().unwrap_or_default().to_string();
             match open_ends_eval(&text) {
@@ -1116,6 +1192,17 @@ pub fn run(tier: Tier, seed: u64, replay: Option<String>) -> i32 {
     let mut stats: std::collections::BTreeMap<String, (u64, Vec<String>)> = std::collections::BTreeMap::new();
     let mut replays = vec![];
     for (_p, v) in crate::ev::replay_files("C04") {
+        if v["kind"] == "c04-paren-size" {
+            let text = v["sources"][0]["text"].as_str().unwrap_or_default().to_string();
+            if let Ok((_, res)) = paren_size_eval(&text) {
+                ctx.case(&text, true);
+                ctx.class("replay:paren-size");
+                if let Some(d) = res {
+                    ctx.fail(Failure { finding: None, what: format!("the extension marker behind a parenthesised SIZE element is lost: {d}"), replay: v.clone() });
+                }
+            }
+            continue;
+        }
         if v["kind"] == "c04-open-ends" {
             let text = v["sources"][0]["text"].as_str().unwrap_or_default().to_string();
             if let Ok(res) = open_ends_eval(&text) {
@@ -1236,6 +1323,7 @@ pub fn run(tier: Tier, seed: u64, replay: Option<String>) -> i32 {
     ctx.extra.insert("failure_signatures".into(), json!(stats.len()));
     copied_components_leg(&mut ctx, tier, seed);
     open_ends_leg(&mut ctx);
+    paren_size_leg(&mut ctx);
     ctx.finish()
 }
 
